@@ -1,7 +1,9 @@
 #!/bin/bash
-# Offline setup: translate the tables of /repo into Lean, build the Lean library and the model driver.
-set -e
+# Offline setup: translate the tables of /repo into Lean, build the Lean library (models + every theorem) and the
+# native model driver. Nothing is fetched: Lean, lake and Mathlib's compiled modules are part of the image.
+set -e -o pipefail
 cd "$(dirname "$0")"
 /venv/bin/python harness/translate_tables.py
 cd lean
-lake build Cellml driver 2>&1 | tail -40
+lake build Cellml driver 2>&1 | tail -60
+test -x .lake/build/bin/driver
